@@ -430,6 +430,7 @@ class Report:
         self.exhaustive = False
         self.oracle_disagreements = []
         self.proj_failures = []
+        self.how = {}          # family -> how its cases are driven / judged (stored in replay files)
 
     def add_mc(self, name, r, note=""):
         self.states += r.distinct
@@ -467,12 +468,12 @@ def handle_verdicts(rep, tr, cases_by_id, family):
             rep.violations.append((v, case))
 
 
-def write_replay(prop, v, case):
+def write_replay(prop, v, case, how=None):
     d = os.path.join(REPLAYS, prop)
     os.makedirs(d, exist_ok=True)
     safe = re.sub(r"[^A-Za-z0-9_.-]", "_", v.get("id", "case"))[:80]
     p = os.path.join(d, safe + ".json")
-    json.dump({"property": prop, "verdict": v, "case": case}, open(p, "w"), indent=1)
+    json.dump({"property": prop, "verdict": v, "case": case, "how": how}, open(p, "w"), indent=1)
     return p
 
 
@@ -492,7 +493,7 @@ def finish(rep, extra_cov=None):
         code = 2
     shown = 0
     for v, case in rep.violations:
-        p = write_replay(rep.prop, v, case)
+        p = write_replay(rep.prop, v, case, rep.how.get(v.get("family")) or (rep.how.get(case.get("family")) if case else None))
         if shown < 25:
             print("VIOLATION property=%s replay=%s" % (rep.prop, p))
             log("  case %s: %s" % (v.get("id"), v.get("msg", "")[:600]))
